@@ -35,9 +35,9 @@ FLAVOURS = {
                          '-fno-sanitize-recover=all'] + COMMON,
                  ldflags=['-fsanitize=fuzzer,address,undefined']),
     'msan': dict(cc='clang-14',
-                 cflags=['-O1', '-g', '-fno-omit-frame-pointer', '-fsanitize=memory',
+                 cflags=['-O1', '-g', '-fno-omit-frame-pointer', '-fsanitize=fuzzer-no-link,memory',
                          '-fsanitize-memory-track-origins'] + COMMON,
-                 ldflags=['-fsanitize=memory']),
+                 ldflags=['-fsanitize=fuzzer,memory']),
     'ct-O0': dict(cc='gcc', cflags=['-O0', '-g', '-DBR_VERIF_VALGRIND'] + COMMON, ldflags=[]),
     'ct-Os': dict(cc='gcc', cflags=['-Os', '-g', '-DBR_VERIF_VALGRIND'] + COMMON, ldflags=[]),
     'ct-O2': dict(cc='gcc', cflags=['-O2', '-g', '-DBR_VERIF_VALGRIND'] + COMMON, ldflags=[]),
